@@ -409,7 +409,7 @@ func c11Explore(c *core.Ctx, cfgs []c11Cfg, race bool, onFail func(cs c11Case, f
 			capped = true
 		}
 		report = append(report, map[string]any{"config": fmt.Sprintf("%+v", cfg), "race_monitor": race, "executions": e.Executions, "scheduling_and_env_choices": e.Transitions,
-			"distinct_states": len(e.States), "pruned_at_visited_state": e.Pruned, "max_points": e.MaxPoints, "outcomes": outcomes,
+			"distinct_states": len(e.States), "pruned_at_visited_state": e.Pruned, "max_points": e.MaxPoints, "max_threads_incl_goroutines_started_by_the_library": e.MaxThreads, "outcomes": outcomes,
 			"gets_served_from_pool": poolctl.GetsFromPool, "gets_served_by_new": poolctl.GetsNew, "completed": !e.Capped, "wall_s": time.Since(start).Seconds(), "sample_schedule": sample})
 	}
 	return
@@ -442,6 +442,10 @@ func init() {
 				}
 				res := out.Res
 				stderrAll += out.Stderr
+				for _, fb := range res.Fallbacks {
+					c.Note("worker %s: %s", jobs[i].Arg, fb)
+					c.Set("library_goroutines_outside_the_explorer", true)
+				}
 				if jobs[i].Binary == "mc-race" {
 					if !res.CanaryOK {
 						c.InternalError("race monitor canary failed: %s", res.Error)
@@ -464,6 +468,7 @@ func init() {
 				c.Note("%d race detector report(s) saved to %s", n, filepath.Join(core.Root, "replays", "C11-race-reports.txt"))
 			}
 			c.Set("race_monitor_executions", raceExecs)
+			c.Set("library_go_statements_as_explorer_threads", core.GoMode())
 			if !c.Quick() {
 				// supplement, not the deciding step: free-running on the real sync.Pool under -race
 				res, se, err := core.RunWorker("mc-plain-race", "C11FREE", "--worker", "freerun", "GORACE=halt_on_error=0")
